@@ -62,6 +62,8 @@ def make_trace(tid, rng, nops=30, **opt):
     """Random real-geometry image + random op sequence on the real object -> trace dict."""
     bs = rng.choice([1 << 20, 1 << 20, 65536, 4096, 2 << 20])
     n = rng.randrange(2, 40 if bs <= (1 << 20) else 12)
+    if opt.get("many"):  # a block map of several hundred entries
+        bs, n = rng.choice([4096, 65536]), rng.randrange(200, 700)
     npos = n + rng.randrange(0, 3)
     pos = list(range(npos))
     rng.shuffle(pos)
@@ -101,7 +103,7 @@ def run(ctx):
     diskprop.replay_states(ctx, "vdi", sts, PROFILES_THOROUGH if thorough else PROFILES_QUICK, build,
                            attrs_of=_attrs, cap=80 if thorough else 48)
     # 3. B: traces from the real code validated by TLC
-    diskprop.traces(ctx, "vdi", lambda tid, r: make_trace(tid, r, 40 if thorough else 25), 400 if thorough else 64,
+    diskprop.traces(ctx, "vdi", lambda tid, r: make_trace(tid, r, 40 if thorough else 25, many=("mid" if tid % 8 == 0 else None)), 400 if thorough else 64,
                     "TraceDisk", "TraceDisk.cfg", lambda t: {"format": "vdi", "block_size": t["geo"]["cellB"], "parent": t["img"]["parent"]})
 
 
